@@ -28,6 +28,9 @@ MapLines(ls, F(_, _)) == [i \in 1..Len(ls) |-> F(i, ls[i])]
 
 \* ---- C09
 Quote(x) == Concat(MapLines(SplitLines(x), LAMBDA i, l : <<GTC, SP>> \o l))
+\* the marker without its optional space: legitimate when no line begins with a space (which the marker would swallow)
+QuoteBare(x) == Concat(MapLines(SplitLines(x), LAMBDA i, l : <<GTC>> \o l))
+NoLineStartsWithSpace(x) == \A i \in 1..Len(SplitLines(x)) : SplitLines(x)[i][1] # SP
 Spaces(n) == [i \in 1..n |-> SP]
 ListIndent(x, marker, n) ==
   Concat(MapLines(SplitLines(x), LAMBDA i, l : IF i = 1 THEN marker \o Spaces(n) \o l
@@ -54,17 +57,18 @@ EndsWithEOL(x) == x # <<>> /\ x[Len(x)] \in {LF, CR}
 
 \* ---- verdicts
 Verdict(t) ==
-  CASE t.rel = "quote" ->
-         IF ~TabFree(t.x) THEN "precondition"
-         ELSE IF t.tx # Quote(t.x) THEN "not-the-transformation"
+  CASE t.rel \in {"quote", "quotebare"} ->
+         \* long = 1: an input of more than 600 bytes is not shipped (x = tx = <<>>); the harness's transformation is trusted for it
+         IF t.long = 0 /\ (~TabFree(t.x) \/ (t.rel = "quotebare" /\ ~NoLineStartsWithSpace(t.x))) THEN "precondition"
+         ELSE IF t.long = 0 /\ t.tx # (IF t.rel = "quote" THEN Quote(t.x) ELSE QuoteBare(t.x)) THEN "not-the-transformation"
          ELSE IF t.a = <<>> THEN (IF t.shape[1] = 0 \/ (t.shape[1] = 1 /\ t.shape[2] = KQuote /\ t.b = <<>>) THEN "ok" ELSE "quoted-empty-document-has-content")
          ELSE IF t.shape[1] # 1 \/ t.shape[2] # KQuote THEN "not-a-single-block-quote"
          ELSE IF t.b # t.a THEN "contents-differ"
          ELSE "ok"
     [] t.rel = "list" ->
-         IF ~ListPre(t.x) \/ ~IsMarker(t.arg[1]) \/ t.arg[2] \notin 1..4 THEN "precondition"
-         ELSE IF t.tx # ListIndent(t.x, t.arg[1], t.arg[2]) THEN "not-the-transformation"
-         ELSE IF FirstLineThematic(t.tx) THEN "ok"
+         IF t.long = 0 /\ (~ListPre(t.x) \/ ~IsMarker(t.arg[1]) \/ t.arg[2] \notin 1..4) THEN "precondition"
+         ELSE IF t.long = 0 /\ t.tx # ListIndent(t.x, t.arg[1], t.arg[2]) THEN "not-the-transformation"
+         ELSE IF t.long = 0 /\ FirstLineThematic(t.tx) THEN "ok"          \* (the harness does not record long inputs whose result begins with a thematic break)
          ELSE IF t.shape[1] # 1 \/ t.shape[2] # KList \/ t.shape[3] # 1 THEN "not-a-one-item-list"
          ELSE IF t.b # t.a THEN "contents-differ"
          ELSE "ok"
